@@ -272,9 +272,11 @@ def build_rvdata(s, time_input="float", t_ref=None, t_ref_scale="tcb"):
     if k_lead and not kw and time_input == "float":
         # the data set is obtained by slicing a longer one: `k_lead` earlier epochs are observed as well and cut off again
         # (a slice is a data set of its own, referred to its own earliest epoch)
-        lead_t = np.nanmin(t) - 1.0 - np.arange(k_lead, dtype=float)
-        full = RVData(t=np.concatenate([t, lead_t]), rv=np.concatenate([rv_, np.full(k_lead, float(np.nanmedian(rv_)))]) * unit(s["unit"]),
-                      rv_err=np.concatenate([err_, np.full(k_lead, float(np.nanmedian(err_)))]) * unit(s.get("err_unit", s["unit"])))
+        lead_t = float(np.min(np.array(s["t"], dtype=float))) - 1.0 - np.arange(k_lead, dtype=float)
+        rv_fill = float(np.median(np.array(s["rv"], dtype=float)))       # (finite: taken from the problem's own rows)
+        err_fill = float(np.median(np.array(s["err"], dtype=float)))
+        full = RVData(t=np.concatenate([t, lead_t]), rv=np.concatenate([rv_, np.full(k_lead, rv_fill)]) * unit(s["unit"]),
+                      rv_err=np.concatenate([err_, np.full(k_lead, err_fill)]) * unit(s.get("err_unit", s["unit"])))
         return full[k_lead:]
     return RVData(t=t_in, rv=rv_ * unit(s["unit"]), rv_err=err_ * unit(s.get("err_unit", s["unit"])), **kw)
 
